@@ -354,7 +354,14 @@ def check_psd(case, ctx):
 
     def once(tag):
         if route == 'method':
-            p = ctx.call(ctx.call(Interferogram, h, dxarg).psd)
+            if case.get('seed', 0) % 3 == 0:
+                # the spacing assigned through the public attribute after construction (dx is a plain attribute of the class)
+                ifg = ctx.call(Interferogram, h)
+                ifg.dx = dxarg
+                ctx.label('dx-assigned-after-construction')
+            else:
+                ifg = ctx.call(Interferogram, h, dxarg)
+            p = ctx.call(ifg.psd)
             ux, uy, P = ctx.call(getattr, p, 'x'), ctx.call(getattr, p, 'y'), p.data
         else:
             p = None
@@ -693,7 +700,7 @@ def check_tis(case, ctx):
 def synth_fields(tier):
     """everything of a synthesis case except the grid (samples, size)"""
     return {'rms': st.sampled_from([1.0, 5.0, 0.01, 1234.5]),
-            'k': st.integers(0, 2 ** 32 - 1), 'model': st.sampled_from(['abc', 'abc', 'ab']),
+            'k': st.integers(0, 2 ** 32 - 1), 'model': st.sampled_from(['abc', 'abc', 'ab', 'user-powerlaw', 'partial-ab']),
             'a': st.sampled_from([1.0, 1e4, 1e-2]), 'b': st.sampled_from([0.01, 0.1, 1.0, 2.5]), 'c': st.sampled_from([1.0, 2.0, 3.3]),
             'mask': st.sampled_from(['none', 'circle-bool', 'circle-int', 'random-bool', 'half-float', 'circle-uint8', 'random-f32', 'single-bool', 'row-bool']),
             'mseed': U.seeds,
@@ -737,6 +744,13 @@ def check_synth(case, ctx):
     keep_mask = None if mask is None else mask.copy()
     if case['model'] == 'abc':
         fcn, kw = abc_psd, {'a': case['a'], 'b': case['b'], 'c': case['c']}
+    elif case['model'] == 'user-powerlaw':
+        # psd_fcn is a parameter: a user-supplied model that, like the library's own ab_psd, is singular at zero frequency
+        a_, b_ = case['a'], case['b']
+        fcn, kw = (lambda nu, a, b: a / nu ** b), {'a': a_, 'b': b_}
+    elif case['model'] == 'partial-ab':
+        import functools
+        fcn, kw = functools.partial(ab_psd, b=case['b']), {'a': case['a']}
     else:
         fcn, kw = ab_psd, {'a': case['a'], 'b': case['b']}
     ctx.label('mask:' + mk, 'model:' + case['model'], 'route:' + case['route'], 'odd' if n % 2 else 'even', 'samples>40' if n > 40 else 'samples<=40')
